@@ -130,6 +130,7 @@ def r9_3(ctx, rc):
     L.check_table(ctx)
     L.lockset_rule(ctx, rc, ['BuildDirs', 'FileBackups',
                              'SimpleOperationExecutor', 'Cache'])
+    L.shared_state_census(ctx, rc)
 
 
 def mutators(ctx):
@@ -340,6 +341,149 @@ def r9_6(ctx, rc):
         else:
             rc.ok({'reservation': 'BuildDirs.started_building_file',
                    'consults': sorted(derived)}, key=key)
+    _ownership_transfer(ctx, rc, F, p)
+
+
+def _ownership_transfer(ctx, rc, F, p):
+    """On the early-stop path of the reserve walk (the directory is already
+    reserved by someone else) every directory of the caller's created-dirs
+    argument that has no owner yet must get one: a loop over the whole
+    argument, never left early, that stores into the owner map under no
+    other condition than "not in the owner map"."""
+    from .refcount import Walk
+    prog = ctx.prog
+    w = Walk(ctx, F)
+    cattrs = w.counter_attr() & Walk(ctx, ctx.E.func(
+        'BuildDirs.error_building_file')).counter_attr()
+    if len(cattrs) != 1:
+        raise AnalysisError('reservation counter of %s not identified' %
+                            F.qualname)
+    cattr = next(iter(cattrs))
+    loop = w.loop_of(cattr)
+    if loop is None:
+        raise AnalysisError('reserve walk not found in ' + F.qualname)
+
+    def owner_store(st, func):
+        """(owner attr, key expr) when st stores into a map attribute other
+        than the counter - directly or through a private helper."""
+        if isinstance(st, ast.Assign):
+            for t in st.targets:
+                if isinstance(t, ast.Subscript) and isinstance(
+                        t.value, ast.Attribute) and isinstance(
+                            t.value.value, ast.Name) and \
+                        t.value.value.id == func.self_name and \
+                        t.value.attr != cattr:
+                    return t.value.attr
+        if isinstance(st, ast.Expr) and isinstance(st.value, ast.Call):
+            for g in prog.resolve_call(st.value, func):
+                if isinstance(g, Func) and g.cls == func.cls and \
+                        not g.is_public and g is not func:
+                    for s2 in ast.walk(g.node):
+                        a = owner_store(s2, g) if isinstance(
+                            s2, ast.Assign) else None
+                        if a:
+                            return a
+        return None
+    owners = set()
+    for st in ast.walk(F.node):
+        a = owner_store(st, F)
+        if a:
+            owners.add(a)
+    if len(owners) != 1:
+        raise AnalysisError('owner map of %s not identified: %s' % (
+            F.qualname, sorted(owners)))
+    owner = owners.pop()
+
+    def stops(body):
+        """Statement lists inside the walk loop (not inside inner loops)
+        that end the walk."""
+        out = []
+
+        def visit(stmts, in_inner):
+            for st in stmts:
+                if isinstance(st, (ast.Break, ast.Return)) and not in_inner:
+                    out.append(stmts)
+                elif isinstance(st, ast.If):
+                    visit(st.body, in_inner)
+                    visit(st.orelse, in_inner)
+                elif isinstance(st, (ast.For, ast.While)):
+                    visit(st.body, True)
+                elif isinstance(st, ast.With):
+                    visit(st.body, in_inner)
+                elif isinstance(st, ast.Try):
+                    visit(st.body, in_inner)
+        visit(body, False)
+        return out
+    early = stops(loop.body)
+    key = 'ownership transfer on the already-reserved path'
+    if not early:
+        rc.ok({'walk': 'never stops early'}, key=key)
+        return
+
+    def over_whole_param(it):
+        e = it
+        while isinstance(e, ast.Call) and isinstance(e.func, ast.Name) and \
+                e.func.id in ('reversed', 'list', 'tuple', 'sorted', 'set',
+                              'iter') and len(e.args) == 1:
+            e = e.args[0]
+        return isinstance(e, ast.Name) and e.id == p
+    for stmts in early:
+        loops = [st for st in stmts if isinstance(st, ast.For) and
+                 over_whole_param(st.iter)]
+        problem = None
+        if not loops:
+            problem = ('the walk stops without going through the %s '
+                       'argument: a directory this thread created above or '
+                       'below the contended one gets no owner' % p)
+        else:
+            L_ = loops[0]
+            leaves = [n for n in ast.walk(L_) if isinstance(
+                n, (ast.Break, ast.Return))]
+            regs = [n for n in ast.walk(L_) if owner_store(n, F) == owner]
+            if leaves:
+                problem = ('the loop over %s is left early (line %d): the '
+                           'remaining directories get no owner' % (
+                               p, leaves[0].lineno))
+            elif not regs:
+                problem = 'the loop over %s registers nothing in .%s' % (
+                    p, owner)
+            else:
+                # conditions of the registration inside the loop
+                parents = {}
+                for n in ast.walk(L_):
+                    for c in ast.iter_child_nodes(n):
+                        parents[c] = n
+                n = regs[0]
+                while n is not L_:
+                    par = parents[n]
+                    if isinstance(par, ast.If):
+                        t = par.test
+                        ok = (n in par.body and isinstance(t, ast.Compare)
+                              and len(t.ops) == 1 and isinstance(
+                                  t.ops[0], ast.NotIn) and isinstance(
+                                      t.comparators[0], ast.Attribute) and
+                              t.comparators[0].attr == owner) or (
+                                  n in par.orelse and isinstance(
+                                      t, ast.Compare) and len(t.ops) == 1
+                                  and isinstance(t.ops[0], ast.In) and
+                                  isinstance(t.comparators[0], ast.Attribute)
+                                  and t.comparators[0].attr == owner)
+                        if not ok:
+                            problem = (
+                                'a created directory is registered only '
+                                'under the condition %s; the only '
+                                'admissible condition is that it has no '
+                                'entry in .%s yet' % (
+                                    ast.unparse(t)[:60], owner))
+                    n = par
+        if problem:
+            rc.violation(
+                'ownership-transfer | ' + F.qualname,
+                'when another thread has already reserved the directory, '
+                'the directories this thread created must still get an '
+                'owner: ' + problem, prog.loc(F, stmts[0]), key=key)
+        else:
+            rc.ok({'loop_over': p, 'owner_map': owner}, key=key)
 
 
 def r9_7(ctx, rc):
@@ -412,8 +556,9 @@ def r9_9(ctx, rc):
     """Claim / run / finish protocol under concurrency (C08 R8.2, R8.3): a
     duplicate issued from another thread is rejected atomically and cannot
     overwrite the owner's record."""
-    from .c08 import r8_2, r8_3
+    from .c08 import r8_2, r8_2b, r8_3
     r8_2(ctx, rc)
+    r8_2b(ctx, rc)
     r8_3(ctx, rc)
 
 
